@@ -212,14 +212,26 @@ def _run(ix, R):
                 'normalised by the largest overlap) x mixing ratio; other rows stay zero',
                 not why, key='; '.join(why), detail='; '.join(why), loc=f.loc(s.node))
         # final reversal back to surface-first order and exposure
+        # (stated on values: what is published and what is yielded is the buffer the window rows were written into,
+        # reversed - however many names it goes through)
         fs = [e for e in fl.of('store') if fmt(fl, e.target) == 'self.sigma_xsec']
-        okr = len(fs) == 1 and isinstance(fs[0].node.value, ast.Name)
-        rev = [e for e in fl.of('assign') if e.op is None and isinstance(e.node, ast.Assign) and
-               unparse(e.node.value).endswith('[::-1]') and isinstance(e.node.targets[0], ast.Name) and
-               fs and e.node.targets[0].id == unparse(fs[0].node.value)]
+        buf = ta.args[0]
+        want_rev = fl.tab.atom('idx', (buf, Slice(None, None, fl.tab.const(-1))))
+        outs = [e.value for e in fs]
+        for y in fl.of('yield'):
+            ya = atom_of(fl, y.value) if y.value is not None else None
+            if ya is not None and ya.head == 'tuple' and len(ya.args) == 2:
+                outs.append(ya.args[1])
+        if not fs or len(outs) < 2:
+            raise AnalysisError('the published / yielded haze opacity is not found')
+        nrev = [v for v in outs if fl.tab.equal(v, want_rev)]
+        plain = [v for v in outs if fl.tab.equal(v, buf)]
+        if len(nrev) + len(plain) != len(outs):
+            raise AnalysisError('the published haze opacity is not the window buffer: %s' % [fmt(fl, v)[:80] for v in outs])
         R.check('2.flat.reverse', 'ALG', FM + '::FlatMieContribution.prepare_each',
                 'rows computed on the reversed (ascending) level grid are reversed back before use',
-                okr and len(rev) == 1, key='reverse %d' % len(rev), detail='reversal statements: %d' % len(rev), loc=f.loc())
+                not plain, key='reverse %d of %d' % (len(nrev), len(outs)),
+                detail='%d of the %d published / yielded values are the un-reversed buffer' % (len(plain), len(outs)), loc=f.loc())
     with R.guard('2.lee', 'UNIT', LM, 'lee haze bounds'):
         f, fl, U = haze_bounds(ix, R, LM + '::LeeMieContribution.prepare_each', 'lee', None, 'Pa')
         pe = param_env(fl, f, ['model', 'wngrid'])
